@@ -142,10 +142,15 @@ def main():
     except ValueError:
         seed = 1
     cfg = PROPS[prop]
+    if replay and os.path.exists(replay):
+        keep = os.path.join(VERIF, "work", f"{prop}-replay-input.txt")
+        os.makedirs(os.path.dirname(keep), exist_ok=True)
+        shutil.copyfile(replay, keep)
+        replay = keep
     wd = os.path.join(VERIF, "work", prop)
     shutil.rmtree(wd, ignore_errors=True)
     for f in os.listdir(os.path.join(VERIF, "replays")) if os.path.isdir(os.path.join(VERIF, "replays")) else []:
-        if f.startswith(prop + "-"):
+        if f.startswith(prop + "-") and not replay:
             os.remove(os.path.join(VERIF, "replays", f))
     os.makedirs(wd, exist_ok=True)
     os.makedirs(os.path.join(VERIF, "evidence"), exist_ok=True)
@@ -359,18 +364,24 @@ def compare(prop, cfg, sd, counters, violations, tie_broken, distinct):
             if not vv.startswith("ok"):
                 counters["validator_fail"] += 1
                 bads.append(("V", vv))
-        if I is not None and "S" in mo and mo["S"] != I:
-            counters["impl_violates_spec"] += 1
-            bads.append(("S", first_diff(I, mo["S"])))
+        # implementation lines `I<x>` are compared with the specification's `S<x>` (violation) and the
+        # faithful model's `M<x>` (tie)
+        for itag in [t for t in im if t.startswith("I")]:
+            sfx = itag[1:]
+            if "S" + sfx in mo and mo["S" + sfx] != im[itag]:
+                counters["impl_violates_spec"] += 1
+                bads.append(("S" + sfx, first_diff(im[itag], mo["S" + sfx])))
         for k, (kind, detail) in enumerate(bads):
             rp = os.path.join(VERIF, "replays", f"{prop}-{h[:12]}-{k}.txt")
             with open(rp, "w") as f:
                 f.write("\n".join(req) + "\n")
                 f.write(f"# {desc}\n{extra}# {kind}: {detail}\n")
             violations.append((kind, f"{kind} {desc} :: {detail}", rp, False))
-        if I is not None and "M" in mo and mo["M"] != I:
-            counters["model_disagrees_impl"] += 1
-            tie_broken.append("\n".join(req) + f"\n# {desc}\n# model/impl differ: {first_diff(I, mo['M'])}")
+        for itag in [t for t in im if t.startswith("I")]:
+            sfx = itag[1:]
+            if "M" + sfx in mo and mo["M" + sfx] != im[itag]:
+                counters["model_disagrees_impl"] += 1
+                tie_broken.append("\n".join(req) + f"\n# {desc}\n{extra}# model/impl differ ({itag}): {first_diff(im[itag], mo['M' + sfx])}")
 
 
 def first_diff(a, b):
